@@ -201,6 +201,13 @@ def stream(ctx):
     rnd = random.Random(ctx['seed'] * 19 + 404)
     counter = [0]
     n_models = 100 if ctx['tier'] == 'quick' else 2500
+    # directed families: one anchored node aliased at an Any / untyped position and at a class-typed one; permissive recognisers
+    for fam in (loadcase.alias_cases(rnd), loadcase.permissive_cases(rnd), loadcase.keyclass_cases(rnd)):
+        for specs, tyspec, node, desc in fam:
+            try:
+                yield specs, tyspec, loadcase.serialize(node), desc
+            except Exception:       # noqa
+                continue
     for specs in (loadcase.gen_model(rnd, hooks=True) for _ in range(n_models)):
         names = [s['name'] for s in specs if s.get('registered', True)]
         if rnd.random() < 0.5:
